@@ -126,11 +126,39 @@ class World:
             warnings.simplefilter("ignore", cat)
 
         def recorder(message, category, filename, lineno, file=None, line=None):
+            if str(message) == "verif-canary":
+                self.canary_hits += 1
+                return
             self.warnings.append((category.__name__, str(message), _origin(filename)))
 
         self.recorder = recorder
         warnings.showwarning = recorder
         self.base_reclimit = sys.getrecursionlimit()
+        # the filter list as the application set it up: a solve may not leave another list, or
+        # other entries, behind (it is process-global state like the display hook)
+        self.base_filters = warnings.filters
+        self.base_filters_copy = list(warnings.filters)
+        # a canary for Python's once-per-location memory: a warning issued from one fixed location
+        # of the "application" is shown once; it is shown again only if something reset that memory
+        # for the whole process (every mutation of the filter list does) -- measured, not judged:
+        # SciPy / NumPy internals may do that legitimately
+        self.canary_hits = 0
+        # who mutates the filter list (optyx itself, or SciPy / NumPy internals)?
+        self.filter_mutations = {}
+        real_fm = warnings._filters_mutated
+
+        def filters_mutated():
+            f = sys._getframe(1)
+            while f is not None and f.f_code.co_filename == warnings.__file__:
+                f = f.f_back
+            who = _origin(f.f_code.co_filename) if f is not None else "other"
+            self.filter_mutations[who] = self.filter_mutations.get(who, 0) + 1
+            real_fm()
+
+        warnings._filters_mutated = filters_mutated
+        self._canary_code = compile("import warnings as _w\n_w.warn('verif-canary', RuntimeWarning)", "<verif-canary>", "exec")
+        self._canary_globals = {"__name__": "verif_canary"}
+        exec(self._canary_code, self._canary_globals)
 
     def _apply_knobs(self):
         import optyx.core.autodiff as ad
@@ -184,16 +212,27 @@ class World:
     # ------------------------------------------------------------------ monitor
     def monitor(self):
         """Process-global state that must be as installed (outside user `with` blocks)."""
+        before = self.canary_hits
+        hook_ok = warnings.showwarning is self.recorder
+        if hook_ok:
+            exec(self._canary_code, self._canary_globals)
         return {
-            "showwarning_ok": warnings.showwarning is self.recorder,
+            "showwarning_ok": hook_ok,
             "reclimit_ok": sys.getrecursionlimit() == self.base_reclimit,
             "reclimit": sys.getrecursionlimit(),
+            "filters_ok": warnings.filters is self.base_filters and list(warnings.filters) == self.base_filters_copy,
+            "canary_redelivered": self.canary_hits > before,
+            "filters_mutated_by_optyx": self.filter_mutations.pop("optyx", 0),
+            "filters_mutated_by_other": self.filter_mutations.pop("other", 0) + self.filter_mutations.pop("user", 0),
         }
 
     def swap_hook(self):
         """The application installs another warnings.showwarning between two solves."""
 
         def recorder2(message, category, filename, lineno, file=None, line=None):
+            if str(message) == "verif-canary":
+                self.canary_hits += 1
+                return
             self.warnings.append((category.__name__, str(message), _origin(filename)))
 
         self.recorder = recorder2
@@ -202,6 +241,10 @@ class World:
     def repair_globals(self):
         warnings.showwarning = self.recorder
         sys.setrecursionlimit(self.base_reclimit)
+        if not (warnings.filters is self.base_filters and list(warnings.filters) == self.base_filters_copy):
+            self.base_filters[:] = self.base_filters_copy
+            warnings.filters = self.base_filters
+            warnings._filters_mutated()
 
     # ------------------------------------------------------------------ per-op
     def begin_op(self, plan=None):
